@@ -51,11 +51,11 @@ func fill(e *entry) {
 
 type stats struct {
 	Ops, Mallocs, Frees, CrossFrees, Private, Barriers, LiveChecked int64
-	DefragRounds, DefragMoved, DefragCallbacks               int64
-	SizesSeen, CapsSeen                                      map[int]int
-	MaxLive                                                  int
-	Fail                                                     []string
-	FailClass                                                []string
+	DefragRounds, DefragMoved, DefragCallbacks                      int64
+	SizesSeen, CapsSeen                                             map[int]int
+	MaxLive                                                         int
+	Fail                                                            []string
+	FailClass                                                       []string
 }
 
 var (
@@ -404,11 +404,11 @@ func child(args []string) {
 }
 
 type job struct {
-	bin               string
-	race              bool
-	procs, G, ops     int
-	rounds, defragN   int
-	seed              uint64
+	bin             string
+	race            bool
+	procs, G, ops   int
+	rounds, defragN int
+	seed            uint64
 }
 
 func main() {
